@@ -139,10 +139,11 @@ def major_instances():
     A1, A2, A3, AI, A4, AD = MM(100, "A>G"), MM(200, "C>T"), MM(300, "G>A"), MM(100, "insT"), MM(100, "A>T"), MM(250, "delAC")
     DI = MM(250, "delGCinsA")
     pool = {"1": ("1", []), "2": ("1", [A1]), "4": ("1", [A1, A2]), "15": ("1", [AI]), "10": ("1", [A3]), "17": ("1", [A4, A3]),
-            "9": ("1", [AD]), "27": ("1", [DI]), "36": ("36", [A2]), "57": ("36", [A2, A3]), "13": ("13", [A1])}
+            "9": ("1", [AD]), "27": ("1", [DI]), "36": ("36", [A2]), "57": ("36", [A2, A3]), "13": ("13", [A1]),
+            "68#2": ("36", [A2]), "4.021": ("1", [A1, A2])}   # names the solver interface has to escape ('#', '.')
     out = [
-        Instance({k: pool[k] for k in ("1", "2", "4", "15", "10", "36")}, {"1": 2, "36": 1},
-                 {A1: 11, A2: 19, A3: 2, AI: 4, MM(100, "_"): 18, MM(200, "_"): 12, MM(300, "_"): 27}, no_cov={("36", 300)},
+        Instance({k: pool[k] for k in ("1", "2", "4.021", "15", "10", "68#2")}, {"1": 2, "36": 1},
+                 {A1: 11, A2: 19, A3: 2, AI: 4, MM(100, "_"): 18, MM(200, "_"): 12, MM(300, "_"): 27}, no_cov={("68#2", 300)},
                  single={AI: 4.0}),   # the insertion has its own (indel-aware) single-copy depth
         # two unexplained substitutions at one site (the one-novel-per-site rule bites) and an unexplained insertion there
         Instance({k: pool[k] for k in ("1", "10")}, {"1": 2}, {A1: 9, A4: 8, AI: 5, A3: 10, MM(100, "_"): 3, MM(300, "_"): 10}, present=[A1, A4, AI]),
@@ -300,6 +301,8 @@ def run(repo, res):
 
 
 MUTANTS = [
+    dict(name="R5 read-back keyed by raw name", module="major", expect=["C02.R9", "C02.R10"],
+         old="        **{model.varName(v): a for a, v in VA.items()},", new='        **{f"A_{a[0]}_{a[1]}": a for a, v in VA.items()},'),
     dict(name="R1 CSAT side dropped", module="major", expect=["C02.R9", "C02.R10"],
          old='        model.addConstr(expr >= cnt, name=f"CSAT_{cnf}")\n', new=""),
     dict(name="R1 CSAT counts copies of any configuration", module="major", expect=["C02.R9", "C02.R10"],
